@@ -29,6 +29,11 @@
 (* enabled, same-AS empty path, the proxy as next hop; "reset" names it:    *)
 (* tr).  "scmp": the proxy handed the waiting SCION client an SCMP message  *)
 (* (a fact about the network, like "stale").                                *)
+(* "rep" names the NTP header state (hdr) of the authentic reply that was    *)
+(* on the wire: "sync", or the reply of an unsynchronised server ("li3",     *)
+(* "str0", "str16": the proxy, which holds the association's S2C key, plays   *)
+(* that server - same unique identifier, same cookies, sealed anew).  A fact  *)
+(* about the environment; it is no loss, so the history stays loss-free.      *)
 (* Behaviours are concatenated; "reset" starts a new one.                  *)
 (* The cfg _c12 evaluates, on the same records, the clause of C12 (property *)
 (* section of KeyProvider.tla) about the key new cookies are sealed with.   *)
@@ -52,6 +57,7 @@ ProbeUids == {}
 MaxOld == 0
 Transports == {"ip", "scion"}
 ScmpTypes == {"unreach", "echorep", "param"}
+HdrStates == {"sync", "li3", "str0", "str16"}
 
 VARIABLES now, prov, pool, sess, used, seen, phase, net, rep, pre, clean, nex, nextId, obs, old, tries, tr,
           l,     \* position of the last event consumed
@@ -141,7 +147,7 @@ TNext ==
      \/ /\ e.ev = "rep"
         /\ phase' = "resp" /\ net' = NoMsg
         /\ prov' = ProvOf(e.prov)
-        /\ rep' = [k |-> "ntp", n |-> e.n, u |-> e.u, cookies |-> e.cookies, sess |-> e.sess, size |-> e.size, bad |-> e.bad]
+        /\ rep' = [k |-> "ntp", n |-> e.n, u |-> e.u, cookies |-> e.cookies, sess |-> e.sess, hdr |-> e.hdr, size |-> e.size, bad |-> e.bad]
         /\ seen' = seen \cup Ids(e.cookies)
         /\ obs' = "serve"
         /\ aux' = [NoAux EXCEPT !.opens = AllOpen(e.cookies), !.lens = AllLen(e.cookies), !.nas = NasOf(e.prov)]
@@ -237,7 +243,7 @@ KeysOf(s) == {s[i].key : i \in DOMAIN s}
 
 SReply(r, n, s, kind) ==
   LET pv == CurrentP(prov, now)
-      x  == ReplyFor(kind, n, s, pv, r.u)
+      x  == ReplyFor(kind, n, s, pv, r.u, r.hdr)
   IN /\ prov' = pv
      /\ r.n = n /\ r.sess = s
      /\ r.bad = x.bad /\ r.size = x.size
@@ -275,7 +281,7 @@ StrictStep ==
        LET pk == IF rep'.fresh THEN CurrentP(prov, now) ELSE prov
            kv == ValidAt(pk, rep'.ck, now)
            pv == CurrentP(pk, now)
-           x  == ReplyFor("probe", rep'.n, 0, pv, rep'.u)
+           x  == ReplyFor("probe", rep'.n, 0, pv, rep'.u, "sync")
        IN /\ rep'.kv = kv
           /\ (rep'.fresh => rep'.ck = pk.cur)
           /\ aux'.ans = (UidAccepted(rep'.u) /\ kv)
@@ -285,10 +291,14 @@ StrictStep ==
                   /\ (~rep'.bad => (Len(rep'.cookies) = Len(x.cookies) /\ KeysOf(rep'.cookies) \subseteq {pv.cur}))
              ELSE prov' = pk)
   /\ Dr("store", obs' = "store" =>
-       /\ phase = "resp" /\ ~rep.bad /\ tries <= MaxRetries
+       /\ phase = "resp" /\ ~rep.bad /\ tries <= MaxRetries /\ Synced(rep.hdr)
        /\ IdSeq(pool') = IdSeq(pool \o rep.cookies))
+  \* a call that ended with an error: nothing was stored - unless it took in the
+  \* authentic reply of an unsynchronised server (stored first, refused then)
   /\ Dr("fail", (obs' = "fail" /\ ~aux.fn /\ phase # "idle") =>
-       (IdSeq(pool') = IdSeq(pool) /\ (phase = "resp" => (rep.bad \/ tries > MaxRetries))))
+       IF phase = "resp" /\ ~rep.bad /\ tries <= MaxRetries
+       THEN ~Synced(rep.hdr) /\ IdSeq(pool') = IdSeq(pool \o rep.cookies)
+       ELSE IdSeq(pool') = IdSeq(pool))
   /\ Dr("stray", obs' = "stray" => IdSeq(pool') = IdSeq(pool))
   /\ Dr("scmp", obs' = "scmp" => (tr = "scion" /\ phase \in {"resp", "wait"}))
   /\ Dr("nosend", (obs' = "fail" /\ phase = "idle" /\ ~aux.fn /\ pool # << >>) => IdSeq(pool') = IdSeq(Tail(pool)))
